@@ -133,6 +133,8 @@ namespace smt
                 return FALSE_lit;
             if (!new_clause({ctr, !left, !right}))
                 return FALSE_lit;
+            if (!new_clause({ctr, left, right}))
+                return FALSE_lit;
             exprs.emplace(s_expr, ctr);
             return ctr;
         }
